@@ -153,17 +153,31 @@ def random_circuit(rng, names1, names2, nq_max=4, depth_max=12):
         if r < 0.25:
             g = ["R_Z", "R_X", "R_Y", "U3", "T", "T_DAG"][int(rng.integers(0, 6))]
             q = int(rng.choice(labels))
+            n_before = len(ops)
             if g in ("T", "T_DAG"):
                 lines.append(f"{g} {q}")
                 ops.append((g, (), [q]))
             elif g == "U3":
                 lits = [ANGLE_LITERALS[int(rng.integers(0, len(ANGLE_LITERALS)))] for _ in range(3)]
-                lines.append(f"U3({lits[0]}, {lits[1]}, {lits[2]}) {q}")
-                ops.append((g, tuple(float(Fraction(x)) for x in lits), [q]))
+                # broadcast and repeated targets (Stim fuses identical neighbouring instructions into one with repeated targets)
+                qs = [q] + [int(rng.choice(labels)) for _ in range(int(rng.integers(0, 3)))] if rng.random() < 0.5 else [q]
+                if rng.random() < 0.3:
+                    qs = qs + [qs[0]]
+                lines.append(f"U3({lits[0]}, {lits[1]}, {lits[2]}) " + " ".join(map(str, qs)))
+                for qq in qs:
+                    ops.append((g, tuple(float(Fraction(x)) for x in lits), [qq]))
             else:
                 lit = ANGLE_LITERALS[int(rng.integers(0, len(ANGLE_LITERALS)))]
-                lines.append(f"{g}({lit}) {q}")
-                ops.append((g, (float(Fraction(lit)),), [q]))
+                qs = [q] + [int(rng.choice(labels)) for _ in range(int(rng.integers(0, 3)))] if rng.random() < 0.5 else [q]
+                if rng.random() < 0.3:
+                    qs = qs + [qs[0]]
+                lines.append(f"{g}({lit}) " + " ".join(map(str, qs)))
+                for qq in qs:
+                    ops.append((g, (float(Fraction(lit)),), [qq]))
+            if rng.random() < 0.25:
+                # the same instruction again on the next line: fused by Stim
+                lines.append(lines[-1])
+                ops += ops[n_before:]
         elif r < 0.6 or nq == 1:
             g = names1[int(rng.integers(0, len(names1)))]
             k = int(rng.integers(1, min(nq, 3) + 1))
